@@ -12,6 +12,35 @@ use std::cell::RefCell;
 use std::rc::Rc;
 mod sel;
 
+// live heap bytes (C10 growth probe): a counting wrapper around the system allocator
+struct Counting;
+static LIVE: std::sync::atomic::AtomicIsize = std::sync::atomic::AtomicIsize::new(0);
+unsafe impl std::alloc::GlobalAlloc for Counting {
+    unsafe fn alloc(&self, l: std::alloc::Layout) -> *mut u8 { LIVE.fetch_add(l.size() as isize, std::sync::atomic::Ordering::Relaxed); std::alloc::System.alloc(l) }
+    unsafe fn dealloc(&self, p: *mut u8, l: std::alloc::Layout) { LIVE.fetch_sub(l.size() as isize, std::sync::atomic::Ordering::Relaxed); std::alloc::System.dealloc(p, l) }
+    unsafe fn realloc(&self, p: *mut u8, l: std::alloc::Layout, n: usize) -> *mut u8 { LIVE.fetch_add(n as isize - l.size() as isize, std::sync::atomic::Ordering::Relaxed); std::alloc::System.realloc(p, l, n) }
+}
+#[global_allocator]
+static ALLOC: Counting = Counting;
+
+/// C10 "never unbounded growth": feed `unit` repeated `n` times in writes of 800 units under limit `m`; returns (error, heap bytes the
+/// rewriter retains after the last successful write)
+fn growth(unit: &str, n: usize, m: usize, with_selector: bool) -> (Option<String>, isize) {
+    let doc = unit.repeat(n);
+    let mut settings = Settings::new();
+    if with_selector { settings = settings.append_element_content_handler(element!("zzz > qq", |_el| Ok(()))); }
+    settings = settings.with_memory_settings(MemorySettings::new().with_preallocated_parsing_buffer_size(0).with_max_allowed_memory_usage(m));
+    let before = LIVE.load(std::sync::atomic::Ordering::Relaxed);
+    let mut rw = HtmlRewriter::new(settings, |_: &[u8]| {});
+    let mut err = None;
+    for c in doc.as_bytes().chunks(unit.len() * 800) {
+        if let Err(e) = rw.write(c) { err = Some(format!("{e}")); break; }
+    }
+    let after = LIVE.load(std::sync::atomic::Ordering::Relaxed);
+    if err.is_none() { let _ = rw.end(); }
+    (err, after - before)
+}
+
 #[derive(Clone, Copy, PartialEq, Eq, Debug)]
 enum Cfg { None, ElemAll, ObserveAll, TextOnly, CommentsOnly, NonMatching, StrictObserve }
 
@@ -400,6 +429,7 @@ fn check_payload(payload: &[u8], rep: &mut Report) {
     }
 }
 
+thread_local! { static KNOWN_NS_STACK: RefCell<Vec<String>> = RefCell::new(vec![]); }
 const PAYLOAD_ALPHABET: &[u8] = b"<>/a!-=\" &;'\n\x0c";
 
 fn main() {
@@ -416,6 +446,19 @@ fn main() {
         for &c in ALPHABET { buf.push(c); rec(buf, max_len, prop, max_cuts, rep); buf.pop(); }
     }
     let exhaustive_len = if matches!(prop.as_str(), "C10" | "C11" | "C09") { max_len.min(3) } else { max_len };
+    if prop == "C10" && max_cuts < 100 {
+        // growth probe (bounded: 5 nesting families x depth 200000 x limit 1024; slack 64 KiB for fixed-size state)
+        let mut ns_stack: Vec<String> = vec![];
+        for (unit, sel) in [("<svg>", false), ("<math>", false), ("<svg>", true), ("<div>", false), ("<div>", true), ("<a b=c>", true), ("x", false)] {
+            let (err, g) = growth(unit, 200_000, 1024, sel);
+            rep.cases += 1;
+            if err.is_none() && g > 1024 + 65536 {
+                let v = format!("{{\"what\":\"rewriter retains heap proportional to the input under a memory limit without reporting MemoryLimitExceeded\",\"input\":\"{} x 200000, writes of 800 units\",\"detail\":\"max_allowed_memory_usage=1024, selector registered: {}, retained heap after the last write: {} bytes\"}}", unit, sel, g);
+                if (unit == "<svg>" || unit == "<math>") && !sel { ns_stack.push(v); } else { rep.violations.push(v); }
+            }
+        }
+        KNOWN_NS_STACK.with(|k| *k.borrow_mut() = ns_stack);
+    }
     if prop == "C04" {
         let r = sel::run_c04(max_len);
         println!("{{\"property\":\"C04\",\"cases\":{},\"alphabet\":{:?},\"exhaustive_len\":{},\"seed_documents\":{},\"max_cuts\":0,\"selectors\":{},\"unsupported\":{:?},\"violations\":[{}],\"known_class_not_compound\":[{}]}}",
@@ -436,7 +479,7 @@ fn main() {
     }
     rec(&mut buf, exhaustive_len, &prop, max_cuts, &mut rep);
     for s in SEEDS { if rep.violations.len() < 5 { check_input(&prop, s.as_bytes(), if matches!(prop.as_str(), "C10" | "C11") { 1 } else { max_cuts.max(2) }, &mut rep); } }
-    println!("{{\"property\":{:?},\"cases\":{},\"alphabet\":{:?},\"exhaustive_len\":{},\"seed_documents\":{},\"max_cuts\":{},\"violations\":[{}]}}",
-        rep.prop, rep.cases, String::from_utf8_lossy(ALPHABET), exhaustive_len, SEEDS.len(), max_cuts, rep.violations.join(","));
+    println!("{{\"property\":{:?},\"cases\":{},\"alphabet\":{:?},\"exhaustive_len\":{},\"seed_documents\":{},\"max_cuts\":{},\"violations\":[{}],\"known_class_ns_stack\":[{}]}}",
+        rep.prop, rep.cases, String::from_utf8_lossy(ALPHABET), exhaustive_len, SEEDS.len(), max_cuts, rep.violations.join(","), KNOWN_NS_STACK.with(|k| k.borrow().join(",")));
     std::process::exit(if rep.violations.is_empty() { 0 } else { 1 });
 }
